@@ -200,28 +200,22 @@ def _strip0(r):
 
 def r6(ctx):
     g = ctx.find(path="barter_execution::map::generate_execution_instrument_map")
-    b = ctx.body(g)
+    b = ctx.ibody(g)
     n = 0
-    want = {"assets": ("eq($1.value.exchange, exchange)", "tuple{0: $1.key, 1: $1.value.asset.name_exchange}"),
-            "instruments": ("eq($1.value.exchange.value, exchange)", "tuple{0: $1.key, 1: $1.value.name_exchange}")}
+    want = {"instruments.assets": ([("filter", ["eq($x.value.exchange, exchange)"]), ("map", "tuple{0: $x.key, 1: $x.value.asset.name_exchange}")], "collect"),
+            "instruments.instruments": ([("filter", ["eq($x.value.exchange.value, exchange)"]), ("map", "tuple{0: $x.key, 1: $x.value.name_exchange}")], "collect")}
+    seen = {}
     for bi, t, tm in b.real_calls():
-        if not tm[1].endswith("Iterator::filter_map"):
+        if not tm[1].endswith("Iterator::collect"):
             continue
-        root = render(common_idx._chain(tm)[1])
-        which = root.split(".")[-1]
-        cb, _ = mir.closure_body(ctx.facts, tm[2][1])
-        rt = mir.in_closure(ctx.facts, tm[2][1], cb.return_term())
-        okc = False
-        got = render(rt)
-        if rt[0] == "call" and rt[1].endswith("then_some"):
-            c = atoms.cmp_term(rt[2][0])
-            if c:
-                got = ("%s(%s, %s)" % (c[0], render(c[1]), render(c[2])), render(rt[2][1]))
-                okc = got == want.get(which)
-        n += 1
-        ctx.check("generate_execution_instrument_map:" + which, okc,
-                  "keeps exactly the entries of the requested exchange, as (global index, exchange name) pairs",
-                  sites=[t["sp"]], got=got, want=want.get(which), key="filter")
+        src, stages, sink = common.pipeline(ctx, tm)
+        which = render(common.strip_iter(src))
+        if which in want:
+            seen[which] = (stages, sink)
+            n += 1
+            ctx.check("generate_execution_instrument_map:" + which.split(".")[-1], (stages, sink) == want[which],
+                      "keeps exactly the entries of the requested exchange, as (global index, exchange name) pairs (pipeline normal form: "
+                      "filter on the entry's own exchange, map to its own key and name)", sites=[t["sp"]], got=(stages, sink), want=want[which], key="filter")
     ctx.floor("per-exchange filters", n, 2)
     for fn, cmp_f, ret_f in (("find_exchange_id", "key", "value"), ("find_exchange_index", "value", "key")):
         fb = ctx.fbody(name=fn, self_adt=EIM, trait="")
